@@ -92,6 +92,7 @@ class Gen:
         self.name_types = {'the_light': 'str'}
         self.loop_names = []      # may be reused as parameter names (a parameter hides them)
         self.written = set()      # registers certainly written (at top level) so far
+        self.no_growth = False    # set while generating an assignment that may run many times
         self.nest = 0             # depth of enclosing if/loop/routine/matrix blocks
 
     # ------------------------------------------------------------ helpers
@@ -159,7 +160,10 @@ class Gen:
                 # keep away from exact ties: round an integer-valued or quarter-offset expression
                 inner = ('bin', '+', inner, A.num('0.3'))
             return ('fn', fn, inner)
-        op = self.pick(['+', '+', '-', '*', '/', '%', '^']) if cls == 'A' else self.pick(['+', '+', '-', '*', '/', '%'])
+        if self.no_growth:
+            op = self.pick(['+', '+', '-', '/', '%'])        # inside loops/routines: nothing that can explode
+        else:
+            op = self.pick(['+', '+', '-', '*', '/', '%', '^']) if cls == 'A' else self.pick(['+', '+', '-', '*', '/', '%'])
         left = self.num_expr(scope, cls, depth - 1, allow_calls)
         if op == '/':
             right = A.num(self.pick(['2', '4', '0.5', '8'])) if cls == 'E' else A.num(self.pick(['2', '3', '4', '7', '0.5', '1.5']))
@@ -279,7 +283,9 @@ class Gen:
                           else '%d.%d' % (self.rng.randint(0, hi), self.rng.randint(0, 99)))
                 cls = 'E' if '.' not in e[2] else 'A'
             else:
+                self.no_growth = self.loop_depth > 0 or scope.in_routine
                 e = self.num_expr(scope, cls, 2)
+                self.no_growth = False
         self.regs[reg] = cls
         if self.nest == 0 and not scope.in_routine:
             self.written.add(reg)
@@ -337,6 +343,7 @@ class Gen:
             while name in self.macros or name in self.routines or not self.type_ok(name, typ) \
                     or getattr(scope.vars.get(name), 'frozen', False) or getattr(self.globals.get(name), 'frozen', False):
                 name = self.new_name() + str(self.fresh)
+        self.no_growth = self.loop_depth > 0 or scope.in_routine
         if typ == 'str':
             e, cls = self.str_atom(scope), 'E'
         else:
@@ -349,6 +356,7 @@ class Gen:
         if (self.loop_depth > 0 or self.nest > 0 or getattr(old, 'pinned', False)) and old is not None and old.cls == 'E' and cls == 'A':
             cls = 'E'
             e = self.num_expr(scope, 'E', 2)
+        self.no_growth = False
         self.declare(scope, name, typ, cls)
         return {'op': 'assign', 'name': name, 'e': e}
 
